@@ -66,9 +66,22 @@ def run_batch(binp, model, profile, seed, count, max_ops, max_sess, corpus, chec
                   out=out, workers=common.NPROC, check_sizes=check_sizes, shrink=True, corpus=corpus)
     env = common.go_env()
     env["DRIVE_PARAMS"] = json.dumps(params)
+    for f in glob.glob(out + ".running.*"):
+        os.remove(f)
     rc, log = common.run([binp, "-test.run", "TestBatch", "-test.timeout", "3000s"], env=env, timeout=3300)
     if rc != 0 or not os.path.exists(out):
-        return None, log
+        # the harness process died: a panic in a router goroutine.  Replay the
+        # scenarios that were running, one process each, to find the culprit.
+        crashed = []
+        for f in sorted(glob.glob(out + ".running.*")):
+            e2 = common.go_env()
+            e2["DRIVE_REPLAY"] = f
+            e2["DRIVE_MODEL"] = model
+            rc2, out2 = common.run([binp, "-test.run", "TestReplay", "-test.timeout", "120s"], env=e2, timeout=200)
+            if rc2 != 0 and ("panic:" in out2 or "fatal error:" in out2):
+                lines = [l for l in out2.splitlines() if l.startswith(("panic:", "fatal error:"))]
+                crashed.append(dict(scenario=json.load(open(f)), panic=(lines or ["panic"])[0], trace=out2[-2500:]))
+        return dict(crashed=crashed, stats=None), log
     return json.load(open(out)), log
 
 
@@ -137,8 +150,14 @@ def main(pid, tier, replay_path=None):
                     os.remove(out)
                 res, log = run_batch(binp, model, profile, common.seed() * 1000 + si, tcfg["count"] // len(spec["profiles"]),
                                      tcfg["max_ops"], tcfg["max_sess"], corpus if si == 0 else [], spec["sizes"], out)
-                if res is None:
-                    broken.append(dict(kind="harness-run", detail=log[-3000:]))
+                if res is None or res.get("stats") is None:
+                    crashed = (res or {}).get("crashed") or []
+                    for c in crashed[:3]:
+                        n_fail += 1
+                        v.finding("router-panic", dict(scenario=c["scenario"], panic=c["panic"], trace=c["trace"]),
+                                  "the router process died while running this history: " + c["panic"])
+                    if not crashed:
+                        broken.append(dict(kind="harness-run", detail=log[-3000:]))
                     continue
                 st = res["stats"]
                 stats_all["scenarios"] += st["scenarios"]
